@@ -66,6 +66,15 @@ Proof.
   fold (rrun t (rstep1 s e)). split; [congruence|exact D].
 Qed.
 
+(* ---- C13: the filestore responses are frozen with the filestore ---- *)
+Theorem resps_frozen_run ops (s : rstate) : not_recv FS s -> r_resps (rrun ops s) = r_resps s.
+Proof.
+  revert s. induction ops as [|e t IH]; intros s H; cbn [rrun fold_left]; [auto|].
+  destruct (frozen_step1 s e H) as (_ & B). fold (rrun t (rstep1 s e)). rewrite (IH _ B).
+  unfold rstep1. destruct (live s); [|reflexivity].
+  apply (rstep_resps_frozen FS fs_write_file fs_exec resp_fail not_performed cksum resp_len req_len). exact H.
+Qed.
+
 (* ---- C04: no file-integrity failure is reported after a successful delivery ---- *)
 Lemma J4_step1 (s : rstate) e : J4 FS s -> J4 FS (rstep1 s e) /\ Forall (clean) (r_out (rstep1 s e)).
 Proof.
